@@ -15,6 +15,7 @@ import PhyVerif.Driver.C08
 import PhyVerif.Driver.C05
 import PhyVerif.Driver.C18
 import PhyVerif.Driver.C10
+import PhyVerif.Driver.C14
 open Lean PhyVerif.Driver
 
 partial def dispatch (j : Json) : R Json := do
@@ -22,7 +23,10 @@ partial def dispatch (j : Json) : R Json := do
   let op ← getStr j "op"
   if op == "multi" && p != "C09" then
     let qs ← fld j "qs" >>= asArr
-    let res ← qs.mapM fun q => dispatch (q.setObjVal! "p" (Json.str p))
+    let res ← qs.mapM fun q =>
+      match q.getObjVal? "p" with
+      | .ok _ => dispatch q
+      | .error _ => dispatch (q.setObjVal! "p" (Json.str p))
     return Json.mkObj [("res", Json.arr res.toArray)]
   match p with
   | "C16" => runC16 op j
@@ -42,6 +46,7 @@ partial def dispatch (j : Json) : R Json := do
   | "C05" => runC05 op j
   | "C18" => runC18 op j
   | "C10" => runC10 op j
+  | "C14" => runC14 op j
   | _ => .error s!"unknown property {p}"
 
 def handle (line : String) : String :=
